@@ -27,22 +27,22 @@ func regressionQueue(t *testing.T) (dir string, fq queue.FanOutQueue) {
 	return dir, fq
 }
 
-func skipIfKnown(t *testing.T) {
-	t.Helper()
-	if ev.Known(sigReopenAckAboveConsumed) {
-		ev.KnownFinding("C06", sigReopenAckAboveConsumed+
-			": a consumer group loaded from its meta page gets acknowledged = queue ack while its consumed position stays below it (acknowledged > consumed)")
-		t.Skipf("listed in known_findings.json: %s", sigReopenAckAboveConsumed)
-	}
-}
-
-func wantOrdered(t *testing.T, where string, g queue.ConsumerGroup) {
+// wantOrdered asserts acknowledged <= consumed <= appended for g. While the finding is listed in
+// known_findings.json a violation is reported as KNOWN-FINDING instead of failing the test.
+func wantOrdered(t *testing.T, where string, g queue.ConsumerGroup, knownSig string) {
 	t.Helper()
 	a, c, app := g.AcknowledgedSeq(), g.ConsumedSeq(), g.Queue().Queue().AppendedSeq()
-	if !(a <= c && c <= app) {
-		t.Fatalf("%s: acknowledged <= consumed <= appended violated: acknowledged=%d consumed=%d appended=%d (queue ack %d)",
-			where, a, c, app, g.Queue().Queue().AcknowledgedSeq())
+	if a <= c && c <= app {
+		return
 	}
+	if knownSig != "" && ev.Known(knownSig) {
+		ev.KnownFinding("C06", knownSig+
+			": a consumer group loaded from its meta page gets acknowledged = queue ack while its consumed position stays below it (acknowledged > consumed)")
+		t.Logf("listed in known_findings.json: %s: %s: acknowledged=%d consumed=%d appended=%d", knownSig, where, a, c, app)
+		return
+	}
+	t.Fatalf("%s: acknowledged <= consumed <= appended violated: acknowledged=%d consumed=%d appended=%d (queue ack %d)",
+		where, a, c, app, g.Queue().Queue().AcknowledgedSeq())
 }
 
 // Minimal history of the state machine (shrunk: group 1, forward reset, new group 2, reopen),
@@ -53,7 +53,6 @@ func wantOrdered(t *testing.T, where string, g queue.ConsumerGroup) {
 // sequence at a time, every Ack it sends is outside [ack, consumed] and is dropped, and every
 // sequence it is handed is unreadable.
 func TestRegression_ReopenAckAboveConsumed(t *testing.T) {
-	skipIfKnown(t)
 	dir, fq := regressionQueue(t)
 	g1, _ := fq.GetOrCreateConsumerGroup("1")
 	for i := 0; i < 12; i++ {
@@ -70,7 +69,7 @@ func TestRegression_ReopenAckAboveConsumed(t *testing.T) {
 	fq.Sync() // queue ack = 10 (group 1 is the only group)
 	fq.Queue().GC()
 	g2, _ := fq.GetOrCreateConsumerGroup("2") // starts at -1/-1
-	wantOrdered(t, "new group 2", g2)
+	wantOrdered(t, "new group 2", g2, "")
 	fq.Close()
 
 	fq, err := queue.NewFanOutQueue(dir, dataPageBytes)
@@ -79,14 +78,13 @@ func TestRegression_ReopenAckAboveConsumed(t *testing.T) {
 	}
 	defer fq.Close()
 	g2, _ = fq.GetOrCreateConsumerGroup("2")
-	wantOrdered(t, "group 2 after reopen", g2)
+	wantOrdered(t, "group 2 after reopen", g2, sigReopenAckAboveConsumed)
 }
 
 // The same through the only production path that stops a group: partition.IsExpire stops a
 // group that IsEmpty; writes continue on the open stream; the other replica acknowledges them;
 // the next write stream re-creates the group from its meta page (BuildReplicaForLeader).
 func TestRegression_RecreateStoppedGroupAckAboveConsumed(t *testing.T) {
-	skipIfKnown(t)
 	_, fq := regressionQueue(t)
 	defer fq.Close()
 	g1, _ := fq.GetOrCreateConsumerGroup("1")
@@ -116,7 +114,7 @@ func TestRegression_RecreateStoppedGroupAckAboveConsumed(t *testing.T) {
 	g1.Ack(6)
 	fq.Sync() // only group 1 exists: queue ack = 6
 	g2, _ = fq.GetOrCreateConsumerGroup("2")
-	wantOrdered(t, "group 2 re-created from its meta page", g2)
+	wantOrdered(t, "group 2 re-created from its meta page", g2, sigReopenAckAboveConsumed)
 }
 
 // Hand-written history that must always hold: two groups, different acks, Sync takes the
